@@ -1,0 +1,14 @@
+//go:build verif
+
+// Contracts for govc (the /verif contract verifier). Comment-only: with the build tag off this file is not
+// compiled, with it on it adds no code.
+package functions
+
+// The regexp memo tables of like, ~ and ~* only ever hold *regexp.Regexp values: established by NewCache (empty),
+// preserved by every Set (checked), used at every Get.
+//@ func FunctionMap["like"][0].Function
+//@   requires cachetag(regexpCache) == typeidptr(regexp.Regexp)
+//@ func FunctionMap["~"][0].Function
+//@   requires cachetag(regexpCache) == typeidptr(regexp.Regexp)
+//@ func FunctionMap["~*"][0].Function
+//@   requires cachetag(regexpCache) == typeidptr(regexp.Regexp)
